@@ -82,6 +82,9 @@ type C24Plan struct {
 	DialFail       []int       `json:"dial_fail,omitempty"`
 	StallWriterMs  int         `json:"stall_writer_ms,omitempty"`
 	StallAtUs      int64       `json:"stall_at_us,omitempty"`
+	// LogYield: every log line a node emits is a scheduling point (false in
+	// replay files that predate the knob: they keep their schedule).
+	LogYield bool `json:"log_yield,omitempty"`
 }
 
 var scratchSeq atomic.Int64
@@ -155,6 +158,7 @@ func genC24(r *simrt.Rand, tier string) any {
 		p.Mode = "adversarial"
 	}
 	idle := r.Chance(6)
+	p.LogYield = r.Chance(85)
 	// debugging aid: pin the configuration (the plan in a replay file is
 	// self-contained, so replays do not depend on this)
 	switch os.Getenv("VERIF_C24_FORCE") {
@@ -272,8 +276,15 @@ type logLine struct {
 	Raw   string
 }
 
+// logSink is the log output of one node. Writing a log line is output I/O: in
+// a real process the writing goroutine can be descheduled there, and arc's
+// warn/error statements sit exactly where code has left its critical section
+// to report something. With yield set, every emitted line is therefore a
+// scheduling point of the simulation (the line is recorded first, so the log
+// stays in emission order).
 type logSink struct {
 	lines []logLine
+	yield bool
 }
 
 func (s *logSink) Write(b []byte) (int, error) {
@@ -286,7 +297,11 @@ func (s *logSink) Write(b []byte) (int, error) {
 	if os.Getenv("VERIF_LOG") != "" {
 		os.Stderr.Write(b)
 	}
-	return len(b), nil
+	n := len(b)
+	if s.yield {
+		simrt.Yield()
+	}
+	return n, nil
 }
 
 type readerState struct {
@@ -316,6 +331,11 @@ type c24run struct {
 	curPayload  map[int][]byte // producer -> pristine copy of the payload being appended
 	hookCalls   map[int]int    // producer -> hook calls so far
 	hookTrouble []string
+	// probes
+	inHook          int
+	hookOverlapGen  int
+	dropsSeen       int64
+	dropsOverlapped int64
 	stepMaxNs   int64
 }
 
@@ -354,7 +374,7 @@ func (st *c24run) body(dir string) {
 			st.net.dialFail[d] = true
 		}
 	}
-	st.wlog = &logSink{}
+	st.wlog = &logSink{yield: p.LogYield}
 	wlogger := zerolog.New(st.wlog)
 
 	var w *wal.Writer
@@ -403,7 +423,21 @@ func (st *c24run) body(dir string) {
 				}
 			}
 			simrt.Event("HOOK #%d writer=%d size=%d", idx, wr, len(e.Payload))
+			// probes: how often is an entry dropped (buffer full) while another
+			// producer is inside the hook at the same time
+			st.inHook++
+			if st.inHook > 1 {
+				st.hookOverlapGen++
+			}
+			gen0, drop0 := st.hookOverlapGen, replication.VerifDropped(sender)
 			orig(e)
+			st.inHook--
+			if replication.VerifDropped(sender) > drop0 {
+				st.dropsSeen++
+				if st.inHook > 0 || st.hookOverlapGen != gen0 {
+					st.dropsOverlapped++
+				}
+			}
 		})
 	})
 	simrt.Join(boot)
@@ -423,7 +457,7 @@ func (st *c24run) body(dir string) {
 	}
 
 	for i := 0; i < p.Readers; i++ {
-		rs := &readerState{id: fmt.Sprintf("reader-%d", i), node: simrt.NodeOf(fmt.Sprintf("reader%d", i)), log: &logSink{}}
+		rs := &readerState{id: fmt.Sprintf("reader-%d", i), node: simrt.NodeOf(fmt.Sprintf("reader%d", i)), log: &logSink{yield: p.LogYield}}
 		st.readers = append(st.readers, rs)
 		ri := i
 		delay := time.Duration(0)
@@ -882,6 +916,14 @@ func runC24(planAny any, cfg simrt.Config) *simkit.Outcome {
 	out.Stats["probe.links"] += int64(len(st.net.links))
 	if st.dropped > 0 {
 		out.Stats["probe.run_with_sender_drop"]++
+		out.Stats["probe.run_with_sender_drop."+mode]++
+	}
+	out.Stats["probe.drop_while_other_producer_in_hook"] += st.dropsOverlapped
+	if st.dropsOverlapped > 0 {
+		out.Stats["probe.run_with_drop_while_other_producer_in_hook."+mode]++
+	}
+	if p.LogYield {
+		out.Stats["probe.run_with_log_yield"]++
 	}
 	if len(st.net.links) > p.Readers {
 		out.Stats["probe.run_with_reconnect"]++
